@@ -451,4 +451,26 @@ theorem reduced_rows_counterexample :
     sum ((weightsAsc false [0, 1, 2, 3] (5 / 2)).take 2) = 0 ∧ sum (weightsAsc false ([0, 1, 2, 3].take 2) (5 / 2)) = 1 := by
   constructor <;> decide +kernel
 
+
+/-! ## one source level (`getinterpweights([x], …)`, repaired code) -/
+
+/-- **C17 (one level).** With a single source level every target — on the level, beside it, with or without
+extrapolation — takes the level's value with weight one: non-negative, summing to one, the identity when the target is
+the source. The code used to return NaN there (`fixed: property=C17 4710796`). -/
+theorem one_level (ex : Bool) (x t : ℚ) : weights ex [x] t = [1] := by
+  unfold weights weightsAsc
+  have hc : col [x] t = [1] := rfl
+  cases ex <;> simp [isAsc, hc, clipNorm, Interp.sum]
+
+theorem one_level_apply (ex : Bool) (x d : ℚ) (nxs : List ℚ) :
+    linearApply ex [x] nxs [d] = nxs.map (fun _ => d) := by
+  unfold linearApply weightMatrix
+  rw [List.map_map]
+  apply List.map_congr_left
+  intro t _
+  simp [one_level, dot]
+
+example : weights false [3] 3 = [1] ∧ weights true [3] 10 = [1] ∧ linearApply false [3] [3, 5] [7] = [7, 7] := by
+  decide +kernel
+
 end Props.C17
